@@ -240,7 +240,7 @@ func oaFindings(p oaProgram, r oaResult) []core.Finding {
 // wrap a scalar variation in the skeleton of a SchemaModel case
 func smWrapInstance(skel, v string) string {
 	switch skel {
-	case "prop":
+	case "prop", "ref2":
 		return `{"k": ` + v + `}`
 	case "item":
 		return `[` + v + `]`
